@@ -1154,6 +1154,14 @@ impl Hist {
 		if rc != vec![0] {
 			return;
 		}
+		// one time in four the sender first reserves explicitly with the reply, as the command line does
+		// for every send (nothing is selected yet: the entry holds no inputs), and tries to finalize twice
+		if self.p.chance(1, 4) {
+			self.lock(f);
+			self.finalize(f);
+			self.finalize(f);
+			return;
+		}
 		// a second send reserves part of the account's outputs (or a block adds one) in between
 		if self.p.chance(3, 4) {
 			let before2 = self.flights.len();
